@@ -13,11 +13,15 @@ use std::collections::HashMap;
 
 fn key_id_map() -> HashMap<String, String> {
     let mut m = HashMap::new();
-    for k in gen_::KEYS {
+    for k in gen_::KEYS5 {
         let (_, pubf, _) = gen_::key_files(k);
         let text = std::fs::read_to_string(pubf).unwrap();
         let (pk, _) = pgp::SignedPublicKey::from_string(&text).unwrap();
-        m.insert(format!("{:x}", pk.key_id()), k.to_string());
+        if k == "assetsub" {
+            m.insert(format!("{:x}", pk.public_subkeys[0].key_id()), k.to_string());
+        } else {
+            m.insert(format!("{:x}", pk.key_id()), k.to_string());
+        }
     }
     m
 }
@@ -55,7 +59,7 @@ fn files_token(p: &Package) -> String {
 fn observe(p: &Package, cx: &Ctx) -> Value {
     let r = guarded(|| {
         let mut ver = serde_json::Map::new();
-        for k in gen_::KEYS {
+        for k in gen_::KEYS5 {
             ver.insert(k.to_string(), json!(p.verify_signature(gen_::verifier(k)).is_ok()));
         }
         let signed_by = match p.signature_key_ids() {
@@ -73,7 +77,7 @@ fn observe(p: &Package, cx: &Ctx) -> Value {
         json!({"verifies": ver, "signed_by": signed_by, "digests_ok": p.verify_digests().is_ok(),
                "header_same": hs, "payload_same": ps, "files_same": files_token(p) == cx.files0, "panicked": false})
     });
-    r.unwrap_or_else(|m| json!({"verifies": {"rsa4096":false,"rsa3072p":false,"ed25519":false,"ecdsa":false}, "signed_by":"panic",
+    r.unwrap_or_else(|m| json!({"verifies": {"rsa4096":false,"rsa3072p":false,"ed25519":false,"ecdsa":false,"assetsub":false}, "signed_by":"panic",
                                "digests_ok": false, "header_same": false, "payload_same": false, "files_same": false, "panicked": true, "msg": m}))
 }
 
@@ -81,12 +85,14 @@ fn apply(p: &Package, op: &Value) -> Result<Package, String> {
     let mut q = p.clone();
     let r = guarded(|| -> Result<(), rpm::Error> {
         match op["op"].as_str().unwrap() {
-            "sign" => q.sign_with_timestamp(gen_::signer(op["key"].as_str().unwrap()), 1_600_000_000u32)?,
+            "sign" => gen_::sign_pkg(&mut q, op["key"].as_str().unwrap(), 1_600_000_000u32)?,
             "clear" => q.clear_signatures()?,
             _ => {
                 let mut b = vec![];
                 q.write(&mut Plain(&mut b))?;
-                q = Package::parse(&mut &b[..])?;
+                // re-parse the way a caller reading from a pipe would: through a buffered reader whose buffer is small
+                let cap = [1usize, 3, 8, 16, 37, 64, 256, 8192][b.len() % 8];
+                q = Package::parse(&mut std::io::BufReader::with_capacity(cap, &b[..]))?;
             }
         }
         Ok(())
@@ -121,7 +127,7 @@ fn walk(start_name: &str, kind: &str, start: Package, cases: &[Value], maxlen: u
                 let entry = match &memo[&parent].0 {
                     Some(pp) => match apply(pp, op) {
                         Ok(q) => { let o = observe(&q, &cx); (Some(q), o) }
-                        Err(m) => (None, json!({"verifies": {"rsa4096":false,"rsa3072p":false,"ed25519":false,"ecdsa":false}, "signed_by":"-",
+                        Err(m) => (None, json!({"verifies": {"rsa4096":false,"rsa3072p":false,"ed25519":false,"ecdsa":false,"assetsub":false}, "signed_by":"-",
                                                "digests_ok": false, "header_same": false, "payload_same": false, "files_same": false, "panicked": true, "msg": m})),
                     },
                     None => (None, memo[&parent].1.clone()),
